@@ -76,43 +76,47 @@ SrcRows(c, t) ==
   LET R == c.frames[t.src].rows IN
   IF t.model = 0 THEN R ELSE SelectSeq(R, LAMBDA r : r.model = t.model)
 
-Layout80(c, t) ==
-  LET rows == SrcRows(c, t)  L == t.lines  A == AtomIdx(L)
-      nth(k) == Cardinality({ j \in A : j <= k }) IN
-  IF Cardinality(A) # Len(rows) THEN <<"fail", "Layout80", "atom-count">>
-  ELSE LET bad == { k \in 1..Len(L) :
-                      \/ Kind(L[k]) = "ATOM" /\ AtomLineBad(L[k], LineRow(rows[nth(k)])) # "ok"
-                      \/ Kind(L[k]) = "TER" /\ ( nth(k) = 0 \/ Kind(L[k - 1]) # "ATOM"
-                                                 \/ TerLineBad(L[k], LineRow(rows[nth(k)])) # "ok" )
-                      \/ Kind(L[k]) = "OTHER" } IN
-       IF bad = {} THEN <<"ok">>
-       ELSE LET k == Min(bad) IN
-            <<"fail", "Layout80",
-              IF Kind(L[k]) = "ATOM" THEN AtomLineBad(L[k], LineRow(rows[nth(k)]))
-              ELSE IF Kind(L[k]) = "TER" THEN "TER" ELSE "unknown-record">>
+\* rank of line k among the ATOM lines, for every line (prefix counts)
+RECURSIVE Ranks(_, _, _)
+Ranks(ks, i, n) == IF i > Len(ks) THEN <<>>
+                   ELSE LET m == IF ks[i] = "ATOM" THEN n + 1 ELSE n IN <<m>> \o Ranks(ks, i + 1, m)
 
-Bracketing(c, t) ==
-  IF ModelBracketing(t.lines, SrcRows(c, t)) THEN <<"ok">> ELSE <<"fail", "ModelBracketing", c.path>>
+Layout80(c, t, ks) ==
+  LET rows == SrcRows(c, t)  L == t.lines  nth == Ranks(ks, 1, 0) IN
+  IF Cardinality(AtomIdxK(ks)) # Len(rows) THEN <<"fail", "Layout80", "atom-count">>
+  ELSE LET why == [k \in 1..Len(L) |->
+                     IF ks[k] = "ATOM" THEN AtomLineBad(L[k], LineRow(rows[nth[k]]))
+                     ELSE IF ks[k] = "TER" THEN (IF nth[k] = 0 \/ ks[k - 1] # "ATOM" THEN "TER-placement"
+                                                 ELSE LET w == TerLineBad(L[k], LineRow(rows[nth[k]])) IN
+                                                      IF w = "ok" THEN "ok" ELSE "TER")
+                     ELSE IF ks[k] = "OTHER" THEN "unknown-record" ELSE "ok"]
+           bad == { k \in 1..Len(L) : why[k] # "ok" } IN
+       IF bad = {} THEN <<"ok">> ELSE <<"fail", "Layout80", why[Min(bad)]>>
 
-TerClause(c, t) ==
-  IF TerAfterEveryChain(t.lines) THEN <<"ok">>
+Bracketing(c, t, ks) ==
+  IF ModelBracketingK(t.lines, ks, SrcRows(c, t)) THEN <<"ok">> ELSE <<"fail", "ModelBracketing", c.path>>
+
+TerClause(c, t, ks) ==
+  IF TerAfterEveryChainK(t.lines, ks) THEN <<"ok">>
   \* P8a exactly: only the last chain of a model that is followed by another model has no TER
-  ELSE IF OnlyModelChangeLacksTer(t.lines) THEN <<"deviation", "NoTerBeforeEndmdl", c.path>>
+  ELSE IF OnlyModelChangeLacksTerK(t.lines, ks) THEN <<"deviation", "NoTerBeforeEndmdl", c.path>>
   ELSE <<"fail", "TerAfterEveryChain", c.path>>
 
 \* all findings of a case, in clause order (only evaluated when the sanity clauses hold)
 Findings(c) ==
+  LET K == [j \in 1..Len(c.texts) |-> Kinds(c.texts[j].lines)] IN
   << FieldIdentity(c) >>
-  \o [j \in 1..Len(c.texts) |-> Layout80(c, c.texts[j])]
-  \o [j \in 1..Len(c.texts) |-> Bracketing(c, c.texts[j])]
-  \o [j \in 1..Len(c.texts) |-> TerClause(c, c.texts[j])]
+  \o [j \in 1..Len(c.texts) |-> Layout80(c, c.texts[j], K[j])]
+  \o [j \in 1..Len(c.texts) |-> Bracketing(c, c.texts[j], K[j])]
+  \o [j \in 1..Len(c.texts) |-> TerClause(c, c.texts[j], K[j])]
 
 Verdict(c) ==
   IF c.err # "" THEN <<"fail", "NoException", c.errstep>>
   ELSE IF \E k \in 1..Len(c.atoms) : ~InDomain(c.atoms[k]) THEN <<"fail", "InputInDomain", "harness">>
   ELSE IF Len(c.frames) < 2
           \/ \E j \in 1..Len(c.texts) : c.texts[j].src \notin 1..Len(c.frames) THEN <<"fail", "Recorded", "harness">>
-  ELSE IF InputFaithful(c)[1] # "ok" THEN InputFaithful(c)
+  ELSE LET inp == InputFaithful(c) IN
+  IF inp[1] # "ok" THEN inp
   ELSE LET F == Findings(c)
            fails == { k \in 1..Len(F) : F[k][1] = "fail" }
            devs  == { k \in 1..Len(F) : F[k][1] = "deviation" } IN
